@@ -1254,6 +1254,7 @@ def run_hr_roundtrip(ctx, n, lines, meta):
 # K for the human-readable format: Impl/HR.lean (token level) against HRPrinter + HRLexer + PrattParser
 K_HR = []
 K_HR_VAR = []
+K_HR_PREC = []
 HR_RNG = [None]
 
 
@@ -1392,6 +1393,69 @@ def hr_model_record(env, f, text, tags):
     except Exception as e:
         impl = ("err", type(e).__name__, False)
     K_HR.append((w, text, toks, impl, "+".join(sorted(tags))))
+    if lexed[0] == "ok" and impl[0] == "ok" and HR_RNG[0] is not None:
+        pv = hr_precedence_variant(HR_RNG[0], lexed[1], lexed[3])
+        if pv is not None:
+            K_HR_PREC.append((text, pv[0], hr_parse_objects(lexed[2], pv[1]), impl[1], pv[2]))
+
+
+# the conventional order of the binding powers -- the SAME classes as `Table.precedence` (Props.C09HR.hrOps_precedence),
+# written here independently of the code under test: rank of every infix operator
+HR_RANK = {}
+for _r, _ops in enumerate([["<->", "->", "xor"], ["|"], ["&"],
+                           ["=", "<", "<=", ">", ">=", "u<", "u<=", "u>", "u>=", "s<", "s<=", "s>", "s>="],
+                           ["+", "-"], ["*", "/", "^", "u/", "s/", "u%", "s%"],
+                           ["<<", ">>", "a>>", "::", "bvcomp", "ROL", "ROR", "ZEXT", "SEXT"]]):
+    for _o in _ops:
+        HR_RANK["o " + wire.hexs(_o)] = _r
+
+
+def hr_precedence_variant(rng, wire_toks, objs):
+    """A pair of parentheses whose removal must NOT change the parse if the binding powers are in the conventional order
+    (`hrOps_precedence`): the pair encloses an infix application `x op y …` of operators of one rank r, the token before
+    `(` is `(` or an infix operator of rank < r, the token after `)` is `)` or an infix operator of rank <= r.
+    -> (wire tokens, token objects, description) or None"""
+    LP, RP = "o " + wire.hexs("("), "o " + wire.hexs(")")
+    PREFIX = ("o " + wire.hexs("!"), "o " + wire.hexs("-"))
+    stack, pairs = [], []
+    for i, t in enumerate(wire_toks):
+        if t == LP:
+            stack.append(i)
+        elif t == RP and stack:
+            pairs.append((stack.pop(), i))
+    cands = []
+    for a, b in pairs:
+        if a == 0 or b + 1 >= len(wire_toks):
+            continue
+        depth, ops, ok = 0, [], True
+        for k in range(a + 1, b):
+            t = wire_toks[k]
+            if t == LP or t == "o " + wire.hexs("["):
+                depth += 1
+            elif t == RP or t == "o " + wire.hexs("]"):
+                depth -= 1
+            elif depth == 0 and t.startswith("o "):
+                if t in HR_RANK and k > a + 1:
+                    ops.append(t)
+                else:
+                    ok = False          # ?, :, ., comma, a prefix operator, a function-call token ... at the top level
+        if not ok or not ops or len(set(HR_RANK[o] for o in ops)) != 1:
+            continue
+        r = HR_RANK[ops[0]]
+        before, after = wire_toks[a - 1], wire_toks[b + 1]
+        if before in PREFIX and (a < 2 or wire_toks[a - 2] == LP or wire_toks[a - 2] in HR_RANK):
+            continue                    # a prefix operator in front of the group
+        if not (before == LP or (before in HR_RANK and HR_RANK[before] < r)):
+            continue
+        if not (after == RP or (after in HR_RANK and HR_RANK[after] <= r)):
+            continue
+        cands.append((a, b))
+    if not cands:
+        return None
+    a, b = rng.choice(cands)
+    keep = [i for i in range(len(wire_toks)) if i not in (a, b)]
+    return ([wire_toks[i] for i in keep], [objs[i] for i in keep] + [objs[-1]],
+            " ".join(wire.unhex(t[2:]) if t.startswith("o ") else "_" for t in wire_toks[max(0, a - 1):b + 2]))
 
 
 def run_hr_model(ctx):
@@ -1481,6 +1545,36 @@ def run_hr_model(ctx):
         else:
             ctx.count("k_hr_outside_fragment")
     run_hr_variants(ctx)
+    run_hr_precedence(ctx)
+
+
+def run_hr_precedence(ctx):
+    """`Props.C09HR.hrOps_precedence` on the implementation: a pair of parentheses that the conventional order of the
+    binding powers makes redundant is removed from the printed token stream; the REAL parser must read the same formula as
+    before (and the parser model must agree with it). This is what makes the relative order of the binding powers matter:
+    the round-trip theorems use them only through bounds, because the printer parenthesises every infix application."""
+    if not K_HR_PREC:
+        return
+    lines = ["hrparse %d %s" % (len(t), " ".join(t)) for _, t, _, _, _ in K_HR_PREC]
+    try:
+        answers = ctx.lean_run_sharded("C09HR", lines)
+    except common.LeanError as e:
+        ctx.report_l("driver C09HR does not run", str(e))
+        return
+    for (text, toks, impl, want, where), ans in zip(K_HR_PREC, answers):
+        ctx.count("k_hr_precedence_cases")
+        got = impl[1] if impl[0] == "ok" else "err " + impl[1]
+        if got != want:
+            ctx.report_k("HR binding powers: removing the parentheses of `%s` (redundant under the conventional precedence, "
+                         "hrOps_precedence) changes what the real parser reads from %s" % (where[:80], text[:150]),
+                         {"text": text, "tokens": " ".join(toks), "implementation": got, "expected": want})
+            continue
+        m = "err" if ans.startswith("err") else ans[3:]
+        if m != want:
+            ctx.report_k("HR parser model: on a stream with redundant parentheses removed (`%s`, from %s) the model answers "
+                         "%s" % (where[:80], text[:150], ans[:150]), {"text": text, "tokens": " ".join(toks), "model": ans})
+            continue
+        ctx.count("k_hr_precedence_agree")
 
 
 def run_hr_variants(ctx):
@@ -1610,6 +1704,7 @@ def run(ctx):
     del K_SCRIPTS[:]
     del K_HR[:]
     del K_HR_VAR[:]
+    del K_HR_PREC[:]
     import random as _random
     HR_RNG[0] = _random.Random("c09-hr-variants-%d" % ctx.seed)     # derived from VERIF_SEED; leaves ctx.rng's stream alone
     run_witnesses(ctx)
